@@ -143,3 +143,64 @@ def run_schedule(workers, expected, steps):
     errs = [e for e in ctrl.error if e is not None]
     if errs:
         raise errs[0]
+
+
+def run_free(workers, stop_lines, schedule, quantum=0.2):
+    """model-free forced interleaving: every thread stops before each line in stop_lines; each schedule
+    entry lets one thread run to its next stop.  A thread that does not reach a stop within `quantum`
+    seconds is taken to be blocked on a lock and is skipped until it shows up again."""
+    n = len(workers)
+    ctrl = Controller(n, set(stop_lines))
+    threads = []
+    for tid, w in enumerate(workers):
+        def body(tid=tid, w=w):
+            sys.settrace(ctrl.tracer(tid))
+            try:
+                w(tid, ctrl)
+                ctrl.finish(tid)
+            except BaseException as e:  # noqa
+                ctrl.finish(tid, e)
+            finally:
+                sys.settrace(None)
+        th = threading.Thread(target=body, daemon=True)
+        threads.append(th)
+        th.start()
+
+    def arrived(tid, timeout):
+        with ctrl.cv:
+            ok = ctrl.cv.wait_for(lambda: ctrl.arrivals[tid] > ctrl.seen[tid] or ctrl.done[tid], timeout=timeout)
+            if ok and ctrl.arrivals[tid] > ctrl.seen[tid]:
+                ctrl.seen[tid] = ctrl.arrivals[tid]
+            return ok
+
+    parked = [False] * n            # blocked at a stop point whose arrival has been consumed
+    for tid in range(n):
+        parked[tid] = arrived(tid, STOP_TIMEOUT) and not ctrl.done[tid]
+    for tid in schedule:
+        if ctrl.done[tid]:
+            continue
+        if not parked[tid]:
+            # it was running (blocked on a lock): see whether it has shown up meanwhile
+            parked[tid] = arrived(tid, 0.01) and not ctrl.done[tid]
+            if not parked[tid]:
+                continue
+        ctrl.release(tid)
+        parked[tid] = arrived(tid, quantum) and not ctrl.done[tid]
+    # drain
+    import time
+    deadline = time.time() + 10
+    while not all(ctrl.done) and time.time() < deadline:
+        for tid in range(n):
+            if ctrl.done[tid]:
+                continue
+            if parked[tid]:
+                ctrl.release(tid)
+                parked[tid] = False
+            parked[tid] = arrived(tid, 0.05) and not ctrl.done[tid]
+    if not all(ctrl.done):
+        raise Stuck("threads did not finish")
+    for th in threads:
+        th.join(timeout=STOP_TIMEOUT)
+    errs = [e for e in ctrl.error if e is not None]
+    if errs:
+        raise errs[0]
